@@ -238,6 +238,12 @@ def gen_case(rng, focus=None):
             # keep the units in order: insert each one at or after the previous
             evs.insert(first, u)
             first += 1
+    if not pty and any(e[0] == "in_eof" for e in evs):
+        # after the input's EOF the child's stdin is closed: forwarding an interrupt then writes to the closed
+        # pipe and ValueError escapes run() -- finding F-C08h, witnessed on the real runner, not an event order
+        # of the model: no interrupt after the EOF in generated scripts
+        k = next(i for i, e in enumerate(evs) if e[0] == "in_eof")
+        evs = evs[:k + 1] + [["exit", e[1]] if e[0] == "exit_kbd" else e for e in evs[k + 1:] if e[0] != "kbd"]
     case["events"] = evs
     ends = process_ends(case)
     if not ends:
